@@ -2,6 +2,8 @@ import PyTrie.Lemmas.RawRefines
 import PyTrie.Lemmas.BinRawRefines
 import PyTrie.Lemmas.ReadRefines
 import PyTrie.Lemmas.IterRefines
+import PyTrie.Lemmas.RawHistory
+import PyTrie.Lemmas.YellowPaper
 /-! # The raw-level write path refines the effect layer (tightens the tie for C01, C02, C04, C05, C06, C07)
 
 `Model/HexRaw.lean` transcribes `_set`, `_set_kv_node`, `_set_branch_node`, `_delete`, `_delete_kv_node`,
@@ -92,5 +94,36 @@ theorem key_after_refines (H : Bytes → Bytes) (hlen : ∀ b, (H b).length = 32
     (key tr : Path) (tfuel fuel : Nat) (htf : 64 ≤ tfuel) (hf : 20 * (YP.height t + 1) ≤ fuel) :
     keyAfterD H db tfuel fuel (Ann.toD H (annotate t)) key tr = .ok (keyAfter t key tr) :=
   keyAfterD_refines H hlen t hc db hst key tr tfuel fuel htf hf
+
+end PyTrie.Props.Raw
+
+/-! ## Whole histories at raw level (C01, C02, C04)
+
+`HexRaw.rawOp` is `HexaryTrie.set` / `delete` end to end as the code runs it on a non-pruning trie over a plain dict
+(root fetch, raw-level `_set` / `_delete`, root store); `rawRun` threads root hash and database through a history.
+`ReachOps … false ops T s` is the world executor's run of `ops` together with the run-level no-collision facts of
+every step; the two side conditions are physical (the hash of `rlp(b"")` is not a key of the final database; no stored
+body has 2^64 bytes). -/
+namespace PyTrie.Props.Raw
+open PyTrie PyTrie.Hex PyTrie.HexD PyTrie.HexW PyTrie.HexRaw
+open PyTrie.Props.C01 (Op run spec)
+
+/-- along every such history the raw-level run returns the executor's root hash and a database answering every
+    lookup as the executor's does: every world-level theorem is a theorem about the raw-level transcription -/
+theorem history_is_world_run (H : Bytes → Bytes) (hlen : ∀ b, (H b).length = 32) (ops : List Op) (T : TrieSt) (s : OpSt)
+    (h : ReachOps (stdHashing H) (blankRoot H) false ops T s)
+    (hbk : Dict.get? s.store.base (blankRoot H) = none)
+    (hsm : ∀ h b, Dict.get? s.store.base h = some b → b.length < 2 ^ 64) :
+    ∃ db, rawRun H ops (blankRoot H, []) = .ok (T.root, db) ∧ DbAgrees db s.store.base :=
+  rawRun_is_world_run H hlen ops T s h hbk hsm
+
+/-- **the raw-level run computes the Yellow Paper root of the final contents** -/
+theorem history_root_is_yellow_paper (H : Bytes → Bytes) (hlen : ∀ b, (H b).length = 32) (ops : List Op) (T : TrieSt) (s : OpSt)
+    (h : ReachOps (stdHashing H) (blankRoot H) false ops T s)
+    (hbk : Dict.get? s.store.base (blankRoot H) = none)
+    (hsm : ∀ h b, Dict.get? s.store.base h = some b → b.length < 2 ^ 64) :
+    ∃ db, rawRun H ops (blankRoot H, []) = .ok (YP.ypRoot H (YP.height (run ops)) (itemsOf (run ops)), db) := by
+  obtain ⟨db, hr⟩ := rawRun_root H hlen ops T s h hbk hsm
+  exact ⟨db, by rw [hr, YP.rootHash_eq_ypRoot H (run ops) (PyTrie.Props.C01.canon_run ops) _ (Nat.le_refl _)]⟩
 
 end PyTrie.Props.Raw
